@@ -22,8 +22,8 @@ theorem core (l r' : Bytes) (i : Nat) (h : l.drop i = r') :
     (match firstBlacklisted r' with
       | none => some false
       | some t => delimAt l (i + t.length)).getD false
-    = tagBlacklist.any fun name => isPrefixCI name r' && tagDelimW isSpace (r'.drop name.length) := by
-  rw [← find_eq_any tagBlacklist (fun n => isPrefixCI n r') (fun n => tagDelimW isSpace (r'.drop n.length))
+    = tagBlacklist.any fun name => isPrefixCI name r' && tagDelimW htmlSpace (r'.drop name.length) := by
+  rw [← find_eq_any tagBlacklist (fun n => isPrefixCI n r') (fun n => tagDelimW htmlSpace (r'.drop n.length))
     (fun a ha b hb pa pb => blacklist_unique r' a b ha hb pa pb)]
   unfold firstBlacklisted
   cases hf : tagBlacklist.find? (fun n => isPrefixCI n r') with
@@ -38,9 +38,11 @@ theorem core (l r' : Bytes) (i : Nat) (h : l.drop i = r') :
         rw [← h, List.drop_drop]; apply List.drop_eq_nil_of_le; omega
       simp [delimAt, h1, h2, tagDelimW]
 
-/-- The filter decides exactly the GFM rule read with comrak's own white-space class, for every literal. -/
-theorem tagfilter_eq_specC (l : Bytes) : tagfilter l = disallowedAtC l := by
-  unfold tagfilter tagfilterE disallowedAtC
+/-- **C14: the filter decides exactly the GFM rule** - `<`, optional `/`, one of the nine names in
+    any letter case, then HTML white space (tab, LF, FF, CR, space), `>` or `/>` - for every literal.
+    (On the pinned tree form feed was not a delimiter; repaired in /repo commit e44bf23.) -/
+theorem tagfilter_eq_spec (l : Bytes) : tagfilter l = disallowedAt l := by
+  unfold tagfilter tagfilterE disallowedAt
   cases l with
   | nil => rfl
   | cons b r =>
@@ -80,26 +82,29 @@ theorem tagfilter_eq_specC (l : Bytes) : tagfilter l = disallowedAtC l := by
     · have h1 : ((some b : Option UInt8) != some 0x3C) = true := by simpa using hb
       simp only [List.getElem?_cons_zero, h1, Bool.or_true, if_true, Option.getD_some, disallowedAtW, hb, if_false]
 
-/-- **C14 (partial): the filter decides exactly the GFM rule** - `<`, optional `/`, one of the nine
-    names in any letter case, then HTML white space, `>` or `/>` - on every literal without a form feed. -/
-theorem tagfilter_eq_spec_partial (l : Bytes) (h : (0x0C : UInt8) ∉ l) : tagfilter l = disallowedAt l := by
-  rw [tagfilter_eq_specC, disallowedAtW_congr l h]
+/-- The former partial statement (literals without a form feed), now a special case. -/
+theorem tagfilter_eq_spec_partial (l : Bytes) (_h : (0x0C : UInt8) ∉ l) : tagfilter l = disallowedAt l :=
+  tagfilter_eq_spec l
 
-/-- The excluded point: a form feed ends a tag name for a browser (and for cmark-gfm's `isspace`),
-    but not for comrak's `isspace`, so `<title\f` passes the filter. Recorded in known_findings.json. -/
-theorem tagfilter_formfeed_counterexample :
-    tagfilter [0x3C, 0x74, 0x69, 0x74, 0x6C, 0x65, 0x0C] = false ∧
-    disallowedAt [0x3C, 0x74, 0x69, 0x74, 0x6C, 0x65, 0x0C] = true := by decide
+/-- The point that was excluded on the pinned tree: a form feed ends a tag name for a browser (and for
+    cmark-gfm's `isspace`); `<title\f` is now filtered. -/
+theorem tagfilter_formfeed_filtered :
+    tagfilter [0x3C, 0x74, 0x69, 0x74, 0x6C, 0x65, 0x0C] = true ∧
+    disallowedAt [0x3C, 0x74, 0x69, 0x74, 0x6C, 0x65, 0x0C] = true ∧
+    disallowedAtC [0x3C, 0x74, 0x69, 0x74, 0x6C, 0x65, 0x0C] = false := by decide
 
-theorem tagfilterBlock_eq_rewriteC (l : Bytes) : tagfilterBlock l = rewriteSpecW isSpace l := by
+/-- In an HTML block the output is the input with `<` -> `&lt;` exactly at the disallowed
+    positions: nothing else is altered, for every literal. -/
+theorem tagfilterBlock_eq_rewriteSpec (l : Bytes) : tagfilterBlock l = rewriteSpec l := by
+  unfold rewriteSpec
   induction l with
   | nil => rfl
   | cons b r ih =>
-    have e := tagfilter_eq_specC (b :: r)
-    unfold disallowedAtC at e
+    have e := tagfilter_eq_spec (b :: r)
+    unfold disallowedAt at e
     simp only [tagfilterBlock, rewriteSpecW, ih, e]
     by_cases hb : b = 0x3C
-    · subst hb; by_cases hd : disallowedAtW isSpace (0x3C :: r) = true <;> simp [hd]
+    · subst hb; by_cases hd : disallowedAtW htmlSpace (0x3C :: r) = true <;> simp [hd]
     · simp [hb]
 
 theorem rewriteSpecW_congr (l : Bytes) (h : (0x0C : UInt8) ∉ l) : rewriteSpecW isSpace l = rewriteSpec l := by
@@ -112,25 +117,22 @@ theorem rewriteSpecW_congr (l : Bytes) (h : (0x0C : UInt8) ∉ l) : rewriteSpecW
     unfold disallowedAt disallowedAtC at e
     simp only [rewriteSpecW, ih hr, e]
 
-/-- In an HTML block the output is the input with `<` -> `&lt;` exactly at the disallowed
-    positions: nothing else is altered (literals without form feed). -/
-theorem tagfilterBlock_eq_rewriteSpec_partial (l : Bytes) (h : (0x0C : UInt8) ∉ l) :
-    tagfilterBlock l = rewriteSpec l := by
-  rw [tagfilterBlock_eq_rewriteC, rewriteSpecW_congr l h]
+theorem tagfilterBlock_eq_rewriteSpec_partial (l : Bytes) (_h : (0x0C : UInt8) ∉ l) :
+    tagfilterBlock l = rewriteSpec l := tagfilterBlock_eq_rewriteSpec l
 
 /-- The inline cascade (escape > safe placeholder > tagfilter > raw): with raw HTML allowed and
     the extension on, an inline literal is written with its leading `<` as `&lt;` iff the rule
     says so, and verbatim otherwise. -/
 theorem inline_filtered_iff (o : HtmlOpts) (l : Bytes) (he : o.escape = false) (hu : o.unsafe_ = true)
     (ht : o.tagfilter = true) :
-    spell (htmlInlineToks o l) = if disallowedAtC l then S.v_lt ++ l.drop 1 else l := by
-  simp only [htmlInlineToks, he, hu, ht, tagfilter_eq_specC]
-  by_cases hd : disallowedAtC l = true <;> simp [hd, spell, Tok.spell]
+    spell (htmlInlineToks o l) = if disallowedAt l then S.v_lt ++ l.drop 1 else l := by
+  simp only [htmlInlineToks, he, hu, ht, tagfilter_eq_spec]
+  by_cases hd : disallowedAt l = true <;> simp [hd, spell, Tok.spell]
 
 theorem block_filtered (o : HtmlOpts) (l : Bytes) (he : o.escape = false) (hu : o.unsafe_ = true)
     (ht : o.tagfilter = true) :
-    spell (htmlBlockToks o l) = rewriteSpecW isSpace l := by
-  simp [htmlBlockToks, he, hu, ht, spell, Tok.spell, tagfilterBlock_eq_rewriteC]
+    spell (htmlBlockToks o l) = rewriteSpec l := by
+  simp [htmlBlockToks, he, hu, ht, spell, Tok.spell, tagfilterBlock_eq_rewriteSpec]
 
 /-- With the extension off (raw HTML allowed) literals are written verbatim. -/
 theorem unfiltered_verbatim (o : HtmlOpts) (l : Bytes) (he : o.escape = false) (hu : o.unsafe_ = true)
@@ -153,21 +155,18 @@ tokenizer's.  Two facts are needed: a `<` rewritten to `&lt;` leaves no `<` behi
 name letters, one delimiter byte, possibly `>` - are never `<`, and a later `<` that becomes `&` is a mismatch /
 non-delimiter either way). -/
 
-/-- **C14: no GFM-disallowed tag survives in a filtered HTML block** (comrak's own white-space class),
-    for every literal. -/
-theorem no_disallowed_survives (l : Bytes) : survivorsC (tagfilterBlock l) = 0 := by
-  rw [tagfilterBlock_eq_rewriteC]
-  exact survivorsW_rewrite isSpace spOk_isSpace l
-
-/-- The same with the HTML tokenizer's white space (tab, LF, FF, CR, space) on every literal without form feed. -/
-theorem no_disallowed_survives_partial (l : Bytes) (h : (0x0C : UInt8) ∉ l) :
-    survivorsH (tagfilterBlock l) = 0 := by
-  rw [tagfilterBlock_eq_rewriteSpec_partial l h]
+/-- **C14: no GFM-disallowed tag survives in a filtered HTML block** (the HTML tokenizer's white
+    space: tab, LF, FF, CR, space), for every literal. -/
+theorem no_disallowed_survives (l : Bytes) : survivorsH (tagfilterBlock l) = 0 := by
+  rw [tagfilterBlock_eq_rewriteSpec]
   exact survivorsW_rewrite htmlSpace spOk_htmlSpace l
 
-/-- The excluded point again: `<title\f` is kept and is a disallowed tag for an HTML tokenizer. -/
-theorem no_disallowed_survives_formfeed_counterexample :
-    survivorsH (tagfilterBlock [0x3C, 0x74, 0x69, 0x74, 0x6C, 0x65, 0x0C]) = 1 := by decide
+theorem no_disallowed_survives_partial (l : Bytes) (_h : (0x0C : UInt8) ∉ l) :
+    survivorsH (tagfilterBlock l) = 0 := no_disallowed_survives l
+
+/-- The formerly excluded point: `<title\f` is rewritten, nothing survives. -/
+theorem no_disallowed_survives_formfeed :
+    survivorsH (tagfilterBlock [0x3C, 0x74, 0x69, 0x74, 0x6C, 0x65, 0x0C]) = 0 := by decide
 
 /-- The counter the harness asks the driver for (`survivors`, Drv/C14.lean) is `survivorsH`. -/
 theorem drv_survivors_eq (out : Bytes) : Comrak.Drv.C14.survivors out = survivorsH out := by
@@ -181,14 +180,14 @@ theorem drv_survivors_eq (out : Bytes) : Comrak.Drv.C14.survivors out = survivor
 /-- The filtered inline literal: its only rewritten position is the first byte, and after the rewrite that
     position holds no `<`. -/
 theorem inline_first_not_disallowed (l : Bytes) :
-    disallowedAtC (if disallowedAtC l then S.v_lt ++ l.drop 1 else l) = false := by
-  by_cases hd : disallowedAtC l = true
-  · simp only [hd, if_true]; simp [disallowedAtC, disallowedAtW, S.v_lt]
+    disallowedAt (if disallowedAt l then S.v_lt ++ l.drop 1 else l) = false := by
+  by_cases hd : disallowedAt l = true
+  · simp only [hd, if_true]; simp [disallowedAt, disallowedAtW, S.v_lt]
   · simp only [hd]; simpa using hd
 
 /-! Non-vacuity: a block with two disallowed tags, one allowed tag and a `<` directly after a tag name. -/
-example : survivorsC [0x3C, 0x78, 0x6D, 0x70, 0x3E, 0x3C, 0x62, 0x3E, 0x3C, 0x2F, 0x58, 0x4D, 0x50, 0x3E] = 2 := by decide
-example : survivorsC (tagfilterBlock [0x3C, 0x78, 0x6D, 0x70, 0x3E, 0x3C, 0x62, 0x3E, 0x3C, 0x2F, 0x58, 0x4D, 0x50, 0x3E]) = 0 := by
+example : survivorsH [0x3C, 0x78, 0x6D, 0x70, 0x3E, 0x3C, 0x62, 0x3E, 0x3C, 0x2F, 0x58, 0x4D, 0x50, 0x3E] = 2 := by decide
+example : survivorsH (tagfilterBlock [0x3C, 0x78, 0x6D, 0x70, 0x3E, 0x3C, 0x62, 0x3E, 0x3C, 0x2F, 0x58, 0x4D, 0x50, 0x3E]) = 0 := by
   decide
 -- "<xmp<xmp>" : the first `<` is not disallowed (delimiter position holds `<`), the second is; after the rewrite
 -- the first is followed by `xmp&lt;xmp>` and still is not disallowed.
